@@ -885,7 +885,9 @@ def plan(prop, tier, seed, known):
             jobs.append({"name": "winrecycle%d" % k, "kind": "lin", "also": ["C08"], "driver": ["windows", "-part", "-2", "-parts", "7", "-seed", str(k)]})
         jobs += fsproto_jobs(q, "C03")
         jobs += commitwin_jobs(q)
-        jobs.append(probe_job(prop, av))   # client requests against a file whose truncation the (parked) shrinker has not completed
+        j = probe_job(prop, av)             # client requests against a file whose truncation the (parked) shrinker has not completed
+        j["also"] = ["C03"]
+        jobs.append(j)
         for i in range(1 if q else 12):   # a crash in the middle of a concurrent history leaves a linearization prefix
             jobs.append(conccrash_job("conccrash%d" % i, seed * 100 + 90 + i, 2 + i % 3, 3 if q else 6, 6 if q else 8, av, 60 if q else 150, 2 if q else 4))
     elif prop == "C16":
@@ -998,6 +1000,7 @@ def run_check(prop, tier, seed):
     known = load_known()
     build()
     jobs = plan(prop, tier, seed, known)
+    jobs_also = {j["name"]: j.get("also", []) for j in jobs}
     res = run_jobs(jobs)
     nviol = 0
     notes = 0
@@ -1005,6 +1008,10 @@ def run_check(prop, tier, seed):
     for r in res:
         for v in r["viols"]:
             mine = any(prop in tags_of(x) or "ALL" in tags_of(x) for x in v["rules"])
+            # a directed scenario written for this property: whatever the reference rejects in it counts for it
+            if not mine and prop in jobs_also.get(v["job"], []):
+                mine = True
+                v["rules"] = v["rules"] + [prop + ":rejected-in-a-scenario-directed-at-this-property"]
             if not mine:
                 notes += 1
                 log("NOTE other-property rejection in %s seg %d line %d: %s | %s %s" % (
